@@ -81,6 +81,27 @@ def main():
                                         'cfg': {'lmtp': lmtp, 'pipelining': pipe, 'kind': 'smtp', 'deadline': 0, 'stages': stages},
                                         'ev': ev}, separators=(',', ':')) + '\n')
                     n += 1
+    # ---- AUTH and refused STARTTLS (a completed TLS handshake needs a real socket: C08's harness)
+    for lmtp in (False, True):
+        for pipe in (False, True):
+            for opts, stage in ((dict(auth=True), 'auth'), (dict(starttls='required'), 'starttls'), (dict(starttls='optional'), 'starttls_opt'),
+                                (dict(starttls='optional', auth=True), 'auth'), (dict(starttls='required', auth=True), 'starttls')):
+                for a in [None] + ACTS[1:] + [535, 454]:
+                    for later in ({}, {'rcpt': [550, 250]}, {'eod': 450}, {'mail': 'disconnect'}):
+                        idx += 1
+                        if idx % nshards != shard:
+                            continue
+                        script = dict(later)
+                        if a is not None:
+                            script[stage] = a
+                        r = rdrv.RelayRun(lmtp, pipe, [script], **opts)
+                        r.attempt(1, 2)
+                        ev = r.run_to_end()
+                        stats['executions'] += 1
+                        f.write(json.dumps({'id': shard + n * nshards, 'cls': ('lmtp' if lmtp else 'smtp') + '-' + stage,
+                                            'cfg': {'lmtp': lmtp, 'pipelining': pipe, 'kind': 'smtp', 'deadline': 0, 'stages': sorted(script)},
+                                            'ev': ev}, separators=(',', ':')) + '\n')
+                        n += 1
     # ---- an address listed more than once: every copy is answered alike by the peer, every position must get that answer
     for lmtp in (False, True):
         for addrs in ([0, 0, 1], [0, 1, 0], [0, 1, 1], [0, 0], [1, 0, 0, 1]):
